@@ -144,7 +144,8 @@ def run(chk):
         # ---------------- R6 the digits fed to both external products are balanced and recompose (C12's rules): the analytic
         # error bound of the product (sum over rows of digit^2 * row noise) assumes |digit| <= Bg/2
         from rules import c04, c12
-        c12.check_variant(c04._Sub(chk, "R6"), v)
+        # (C12.R4, "the input is restored", concerns the caller's operand, not the product: C15's business)
+        c12.check_variant(c04._Sub(chk, "R6", skip={"R4", "R6"}), v)
         # ---------------- R1 coefficient external product
         f = v.fn("tGswExternMulToTLwe")
         ps, _ = summ.pieces(v, f, hooks=NOINLINE)
